@@ -1,7 +1,160 @@
-From Coq Require Import ZArith NArith List Bool Lia.
+(* Properties_C12.v — frequent items: the bounds bracket the true weight, the total is exact, result-set guarantees,
+   descending order, epsilon bound.  Statements only; proofs live in FiProofs.v (abstract layer L1) and
+   FiMapProofs.v (the reverse-purge hash map L2).
+   The theorems quantify over ANY item type with a decidable equality, ANY history of updates, and purges with ANY
+   non-negative decrement at ANY time (so they cover whatever median the code samples and whenever it purges), merges
+   that replay the operand's counters in any order, and round trips.
+   Three clauses of the property text are FALSE for the code and therefore for the model that mirrors it; they are
+   stated here with the hypothesis that makes them true, and each has a machine-checked refutation witness computed
+   on the executable L2 model (Examples *_refuted at the end):
+     - merge / serialize of a sketch with no active counter but non-zero total and offset (all counters purged),
+     - NO_FALSE_NEGATIVES with a threshold below the maximum error,
+     - the epsilon bound after merging a sketch with a smaller lg_max_map_size. *)
+From Coq Require Import ZArith NArith List Bool Lia Permutation Sorting.Sorted.
 From DS Require Import Word Murmur3 RunnerLib FiDefs FiProofs.
 Import ListNotations.
 Local Open Scope Z_scope.
-Theorem C12_placeholder : forall (s : ask Z), a_run Z Z.eqb s [] = s.
-Proof. reflexivity. Qed.
-Print Assumptions C12_placeholder.
+
+Section AnyItem.
+  Variable Item : Type.
+  Variable eqb : Item -> Item -> bool.
+  Hypothesis eqb_spec : forall a b, eqb a b = true <-> a = b.
+
+  (* stream: after any history (updates with positive weights, purges with any decrement >= 0), for every item x *)
+  Theorem C12_fi_bracket : forall (h : list (aop Item)) (x : Item), Forall (aop_ok Item) h ->
+    let s := a_run Item eqb (a_empty Item) h in
+    a_lb Item eqb s x <= h_weight Item eqb h x <= a_ub Item eqb s x /\
+    a_lb Item eqb s x <= a_est Item eqb s x <= a_ub Item eqb s x /\
+    a_ub Item eqb s x - a_lb Item eqb s x = a_off Item s.
+  Proof. exact (fi_bracket Item eqb eqb_spec). Qed.
+
+  Theorem C12_fi_total_exact : forall h : list (aop Item),
+    a_tot Item (a_run Item eqb (a_empty Item) h) = h_total Item h.
+  Proof. exact (fi_total_exact Item eqb). Qed.
+
+  (* all histories: updates, purges, merge trees, round trips.  t = true weight function, T = true total *)
+  Theorem C12_fi_reach_bracket : forall s t T x, Reach Item eqb s t T ->
+    a_lb Item eqb s x <= t x <= a_ub Item eqb s x /\
+    a_lb Item eqb s x <= a_est Item eqb s x <= a_ub Item eqb s x /\
+    a_ub Item eqb s x - a_lb Item eqb s x = a_off Item s /\
+    a_tot Item s = T.
+  Proof. exact (fi_reach_bracket Item eqb eqb_spec). Qed.
+
+  (* merge: the operand's counters replayed as updates in any order, purges wherever they fall; offsets added; total fixed up.
+     Hypothesis "the operand has at least one counter": see C12_merge_purged_empty_refuted *)
+  Theorem C12_fi_merge_bracket : forall a ta Ta b tb Tb h x,
+    Reach Item eqb a ta Ta -> Reach Item eqb b tb Tb -> replays Item eqb h b -> a_ents Item b <> [] ->
+    let m := a_merge Item eqb a b h in
+    a_lb Item eqb m x <= ta x + tb x <= a_ub Item eqb m x /\
+    a_lb Item eqb m x <= a_est Item eqb m x <= a_ub Item eqb m x /\
+    a_ub Item eqb m x - a_lb Item eqb m x = a_off Item m /\
+    a_tot Item m = Ta + Tb.
+  Proof.
+    intros a ta Ta b tb Tb h x Ha Hb Hr Hne m.
+    exact (fi_reach_bracket Item eqb eqb_spec m _ _ x (R_merge Item eqb a ta Ta b tb Tb h Ha Hb Hr Hne)).
+  Qed.
+
+  (* serialize + deserialize (counters re-inserted without purge; offset and total restored) *)
+  Theorem C12_fi_roundtrip_bracket : forall s t T h x,
+    Reach Item eqb s t T -> h_nopurge Item h -> (forall y, h_weight Item eqb h y = a_get Item eqb (a_ents Item s) y) ->
+    a_ents Item s <> [] ->
+    let m := a_roundtrip Item eqb s h in
+    a_lb Item eqb m x <= t x <= a_ub Item eqb m x /\
+    a_lb Item eqb m x <= a_est Item eqb m x <= a_ub Item eqb m x /\
+    a_ub Item eqb m x - a_lb Item eqb m x = a_off Item m /\
+    a_tot Item m = T.
+  Proof.
+    intros s t T h x Hs Hn Hw Hne m.
+    exact (fi_reach_bracket Item eqb eqb_spec m _ _ x (R_roundtrip Item eqb s t T h Hs Hn Hw Hne)).
+  Qed.
+
+  (* NO_FALSE_NEGATIVES: every item whose true weight exceeds the threshold is returned (with its lower bound),
+     for thresholds >= the maximum error (the default threshold IS the maximum error); see C12_nfn_small_threshold_refuted *)
+  Theorem C12_no_false_negatives : forall s t T thr x, Reach Item eqb s t T ->
+    a_off Item s <= thr -> thr < t x -> In (x, a_lb Item eqb s x) (a_rows Item true s thr).
+  Proof.
+    intros s t T thr x Hr. destruct (Reach_Inv Item eqb eqb_spec s t T Hr) as [Hi _].
+    exact (no_false_negatives Item eqb eqb_spec s t thr x Hi).
+  Qed.
+
+  (* NO_FALSE_POSITIVES: only items whose true weight exceeds the threshold, for ANY threshold *)
+  Theorem C12_no_false_positives : forall s t T thr x v, Reach Item eqb s t T ->
+    In (x, v) (a_rows Item false s thr) -> thr < t x /\ v = a_lb Item eqb s x.
+  Proof.
+    intros s t T thr x v Hr. destruct (Reach_Inv Item eqb eqb_spec s t T Hr) as [Hi _].
+    exact (no_false_positives Item eqb eqb_spec s t thr x v Hi).
+  Qed.
+
+  (* rows come in descending estimate order *)
+  Theorem C12_rows_sorted_desc : forall nfn (s : ask Item) thr,
+    StronglySorted (fun p q : Item * Z => snd q + a_off Item s <= snd p + a_off Item s) (a_rows Item nfn s thr).
+  Proof. exact (rows_sorted_desc Item). Qed.
+
+  (* epsilon: map sizes up to the purge sample size (the whole map is sampled: decrement = median of all counters, purge as soon
+     as more than 3/4 * 2^lg counters): maximum error <= 3.5 / 2^lg * total, for streams, merges of sketches of the same or a
+     larger size, and re-layouts.  Merging a SMALLER sketch breaks it: see C12_eps_mixed_sizes_refuted *)
+  Theorem C12_eps_bound : forall lg s, 3 <= lg -> DReach Item eqb (2 ^ lg * 3 / 4) s ->
+    2 * 2 ^ lg * a_off Item s <= 7 * a_tot Item s.
+  Proof. exact (eps_bound Item eqb eqb_spec). Qed.
+
+  (* the deterministic update is one of the histories covered by the bracket theorems *)
+  Theorem C12_det_update_is_history : forall cap (s : ask Item) x w, Forall (fun kv => 0 < snd kv) (a_ents Item s) -> 0 < w ->
+    exists h, Forall (aop_ok Item) h /\ a_update_det Item eqb cap s x w = a_run Item eqb s h /\
+              (forall y, h_weight Item eqb h y = if eqb x y then w else 0) /\ h_total Item h = w.
+  Proof. exact (det_is_history Item eqb eqb_spec). Qed.
+End AnyItem.
+
+(* ---------- the executable L2 model (what the correspondence check runs against the C++): witnesses ---------- *)
+Definition u64item (v : Z) : item := [v].
+Definition feed (s : sk) (l : list (Z * Z)) : sk := fold_left (fun s xw => upd 0 s (u64item (fst xw)) (snd xw)) l s.
+Definition lb0 (s : sk) (v : Z) := sk_lb item item_eqb (fi_hash 0) s (u64item v).
+Definition ub0 (s : sk) (v : Z) := sk_ub item item_eqb (fi_hash 0) s (u64item v).
+Definition seven_ones : list (Z * Z) := [(0,1);(1,1);(2,1);(3,1);(4,1);(5,1);(6,1)].
+Definition purged_empty : sk := feed (sk_new item 3 3) seven_ones.
+
+(* non-vacuity: a run with a purge; the heavy item keeps informative bounds, a purged item is bracketed by [0, offset] *)
+Example C12_nonvacuous :
+  let s := feed (sk_new item 3 3) [(9,10);(1,1);(2,2);(3,1);(4,3);(5,1);(6,1);(9,5);(1,1)] in
+  sk_off _ s = 1 /\ sk_tot _ s = 25 /\ lb0 s 9 = 14 /\ ub0 s 9 = 15 /\ lb0 s 3 = 0 /\ ub0 s 3 = 1 /\ lb0 s 1 = 1 /\ ub0 s 1 = 2.
+Proof. vm_compute. repeat split; reflexivity. Qed.
+
+(* seven distinct items of weight 1 in a map of capacity 6: the purge (median 1) removes every counter *)
+Example C12_purge_can_wipe_the_map :
+  nact _ (sk_map _ purged_empty) = 0 /\ sk_tot _ purged_empty = 7 /\ sk_off _ purged_empty = 1.
+Proof. vm_compute. repeat split; reflexivity. Qed.
+
+(* merge ignores such an operand: total 5 instead of 12, upper bound of item 0 is 0 < true weight 1 *)
+Example C12_merge_purged_empty_refuted :
+  let a := feed (sk_new item 3 3) [(100, 5)] in
+  let m := sk_merge item item_eqb (fi_hash 0) a purged_empty in
+  sk_tot _ m = 5 /\ ub0 m 0 = 0.
+Proof. vm_compute. split; reflexivity. Qed.
+
+(* serialize writes the empty form for it: the round trip forgets total and offset *)
+Example C12_roundtrip_purged_empty_refuted :
+  let m := sk_roundtrip item item_eqb (fi_hash 0) purged_empty in
+  sk_tot _ m = 0 /\ sk_off _ m = 0 /\ ub0 m 0 = 0.
+Proof. vm_compute. repeat split; reflexivity. Qed.
+
+(* NO_FALSE_NEGATIVES with threshold 0 < maximum error 1 returns nothing although seven items have true weight 1 > 0 *)
+Example C12_nfn_small_threshold_refuted :
+  sk_rows item true purged_empty 0 = [] /\ sk_off _ purged_empty = 1.
+Proof. vm_compute. split; reflexivity. Qed.
+
+(* a small sketch (lg_max 3) merged into a large one (lg_max 8): maximum error 22 > 3.5/256 * 139 *)
+Example C12_eps_mixed_sizes_refuted :
+  let small := feed (sk_new item 3 3) (map (fun i => (Z.of_nat (i mod 10), 1 + Z.of_nat (i mod 3))) (seq 0 70)) in
+  let big := sk_merge item item_eqb (fi_hash 0) (sk_new item 8 3) small in
+  sk_off _ big = 22 /\ sk_tot _ big = 139 /\ (7 * sk_tot _ big <? 2 * 2 ^ 8 * sk_off _ big) = true.
+Proof. vm_compute. repeat split; reflexivity. Qed.
+
+Print Assumptions C12_fi_bracket.
+Print Assumptions C12_fi_total_exact.
+Print Assumptions C12_fi_reach_bracket.
+Print Assumptions C12_fi_merge_bracket.
+Print Assumptions C12_fi_roundtrip_bracket.
+Print Assumptions C12_no_false_negatives.
+Print Assumptions C12_no_false_positives.
+Print Assumptions C12_rows_sorted_desc.
+Print Assumptions C12_eps_bound.
+Print Assumptions C12_det_update_is_history.
